@@ -97,6 +97,13 @@ func c10Exercise(data []byte, roots []ed25519.PublicKey) string {
 		a.Authorize()
 		_ = a.PrintWorld()
 	}
+	// two attenuations prepared side by side on the received token
+	b1 := tok.CreateBlock()
+	b1.AddFact(hx.Fact(atom("added", rx.Str("first-holder"), rx.Str("x"))))
+	b2 := tok.CreateBlock()
+	b2.AddFact(hx.Fact(atom("added", rx.Str("second-holder"), rx.Str("y"))))
+	b1.Build()
+	b2.Build()
 	bb := tok.CreateBlock()
 	bb.AddFact(hx.Fact(atom("added", rx.Str("by-holder"), rx.Str("x"))))
 	if nt, err := tok.Append(hx.NewRNG(1), bb.Build()); err == nil && nt != nil {
